@@ -72,13 +72,19 @@ func cmdMigrate(args []string) {
 		// error types of other kinds than (pointer to) struct: a named slice; instantiations of a generic type
 		{"slice-leaf", []error{mig.S1{1}, mig.S2{1}, mig.S3{1}}, []string{"mig.S1", "mig.S2", "mig.S3"}},
 		{"generic-leaf", []error{&mig.G1[int]{}, &mig.G2[int]{}, &mig.G3[int]{}}, []string{"*mig.G1[int]", "*mig.G2[int]", "*mig.G3[int]"}},
+		// the rename also moved the type from value receivers to pointer receivers
+		{"value-to-pointer", []error{&mig.T1{}, &mig.T2{}, &mig.T3{}}, []string{"*mig.T1", "*mig.T2", "*mig.T3"}},
 	}
 	for _, fam := range families {
 		for n := 1; n <= 3; n++ {
 			// chain k0 -> T1 -> ... -> Tn ; edge i renames (i-1) to i
 			var edges []regStep
 			origName := "old/pkg/*pkg.T0"
-			if strings.HasPrefix(fam.kind, "moved") {
+			if fam.kind == "value-to-pointer" {
+				// the original type had value receivers: its documented name has no asterisk
+				origName = "old/pkg/pkg.T0"
+				edges = append(edges, regStep{"old/pkg", "pkg.T0", fam.types[0]})
+			} else if strings.HasPrefix(fam.kind, "moved") {
 				origName = "an/older/import/path/mig/" + fam.names[0]
 				edges = append(edges, regStep{"an/older/import/path/mig", fam.names[0], fam.types[0]})
 			} else {
@@ -115,7 +121,8 @@ func cmdMigrate(args []string) {
 					}
 					for _, ei := range ord {
 						e := edges[ei]
-						errbase.RegisterTypeMigration(e.prevPkg, e.prevName, e.newType)
+						// through the public API (a forwarding wrapper)
+						errors.RegisterTypeMigration(e.prevPkg, e.prevName, e.newType)
 						// the keys are in use between registrations (errors are compared / encoded while
 						// packages are still initialising): nothing computed now may go stale later
 						for i := 0; i < n; i++ {
@@ -181,12 +188,19 @@ func cmdMigrate(args []string) {
 		if kind == "leaf" {
 			return migPkg + "/*mig.T1"
 		}
+		if kind == "multi" {
+			return migPkg + "/*mig.M1"
+		}
 		return migPkg + "/*mig.W1"
 	}
+	second := errors.New("second branch")
 	versions := []version{
 		{name: "old", mk: func(kind, msg string, cause error) error {
 			if kind == "leaf" {
 				return &mig.T1{Msg: msg}
+			}
+			if kind == "multi" {
+				return &mig.M1{Errs: []error{cause, second}}
 			}
 			return &mig.W1{Err: cause}
 		}, migr: map[string]string{}},
@@ -194,14 +208,20 @@ func cmdMigrate(args []string) {
 			if kind == "leaf" {
 				return &mig.T2{Msg: msg}
 			}
+			if kind == "multi" {
+				return &mig.M2{Errs: []error{cause, second}}
+			}
 			return &mig.W2{Err: cause}
-		}, migr: map[string]string{migPkg + "/*mig.T2": migPkg + "/*mig.T1", migPkg + "/*mig.W2": migPkg + "/*mig.W1"}},
+		}, migr: map[string]string{migPkg + "/*mig.T2": migPkg + "/*mig.T1", migPkg + "/*mig.W2": migPkg + "/*mig.W1", migPkg + "/*mig.M2": migPkg + "/*mig.M1"}},
 		{name: "other", mk: func(kind, msg string, cause error) error {
 			if kind == "leaf" {
 				return &mig.T3{Msg: msg}
 			}
+			if kind == "multi" {
+				return &mig.M3{Errs: []error{cause, second}}
+			}
 			return &mig.W3{Err: cause}
-		}, migr: map[string]string{migPkg + "/*mig.T3": migPkg + "/*mig.T1", migPkg + "/*mig.W3": migPkg + "/*mig.W1"}},
+		}, migr: map[string]string{migPkg + "/*mig.T3": migPkg + "/*mig.T1", migPkg + "/*mig.W3": migPkg + "/*mig.W1", migPkg + "/*mig.M3": migPkg + "/*mig.M1"}},
 		{name: "unknowing", mk: nil, migr: map[string]string{}},
 	}
 	// run f "inside" version v: its migration registry and its decoders installed
@@ -212,7 +232,17 @@ func cmdMigrate(args []string) {
 		if v.mk != nil {
 			// the type has its own codec (registered under its type key, as documented): the
 			// decoder relies on the payload its encoder sends
-			if kind == "leaf" {
+			if kind == "multi" {
+				// a multi-cause type is rebuilt by a multi-cause decoder registered under its (original) key
+				errbase.RegisterMultiCauseDecoder(k, func(_ context.Context, causes []error, _ string, _ []string, _ proto.Message) error {
+					if len(causes) != 2 {
+						return nil
+					}
+					rebuilt := v.mk(kind, "", causes[0])
+					rebuilt.(interface{ Unwrap() []error }).Unwrap()[1] = causes[1]
+					return rebuilt
+				})
+			} else if kind == "leaf" {
 				errbase.RegisterLeafEncoder(k, func(_ context.Context, err error) (string, []string, proto.Message) {
 					return err.Error(), nil, &errorspb.StringPayload{Msg: "P:" + err.Error()}
 				})
@@ -237,7 +267,9 @@ func cmdMigrate(args []string) {
 			}
 		}
 		defer func() {
-			if kind == "leaf" {
+			if kind == "multi" {
+				errbase.RegisterMultiCauseDecoder(k, nil)
+			} else if kind == "leaf" {
 				errbase.RegisterLeafDecoder(k, nil)
 				errbase.RegisterLeafEncoder(k, nil)
 			} else {
@@ -263,7 +295,7 @@ func cmdMigrate(args []string) {
 		})
 		return e
 	}
-	for _, kind := range []string{"leaf", "wrapper"} {
+	for _, kind := range []string{"leaf", "wrapper", "multi"} {
 		cause := errors.New("cause")
 		for _, s := range versions {
 			if s.mk == nil {
